@@ -115,6 +115,9 @@ def _rooted_on_every_path(ctx, f, b, t, l, opname):
                     if base[0] == 'agg' and str(base[1]).startswith('Array') and rg[0] == 'agg' and str(rg[1]).endswith('RangeTo') and rg[3] and int_of(res(rg[3][0])) is not None:
                         for x in base[3][:int_of(res(rg[3][0]))]:
                             included.append(res(x))
+                    elif base[0] == 'agg' and str(base[1]).startswith('Array') and ((rg[0] == 'agg' and str(rg[1]).endswith('RangeFull')) or 'RangeFull' in str(rg)[:60]):
+                        for x in base[3]:                 # `&extra[..]`: the whole array
+                            included.append(res(x))
                     return
                 if v[0] == 'call' and v[1].endswith(('::as_slice', 'Deref>::deref', '::as_ref')) and v[2]:
                     collect(v[2][0], depth + 1)
